@@ -47,6 +47,7 @@ func classify(err error) string {
 	add("simreset", errors.Is(err, ErrSimReset))
 	add("simclosed", errors.Is(err, ErrSimClosed))
 	add("simwrite", errors.Is(err, ErrSimWrite))
+	add("simwriteeof", errors.Is(err, ErrSimWriteEOF))
 	add("simbroken", errors.Is(err, ErrSimBroken))
 	add("simdial", errors.Is(err, ErrSimDial))
 	var rte *mqtt.RequestTimeoutError
@@ -104,6 +105,22 @@ func (s *Sim) setupClients() {
 		s.retry.OnError = func(err error) {
 			s.log(Rec{Kind: "onerror", Err: err.Error(), Cls: classify(err)})
 			s.yield("app.onError") // a slow application callback (runs on the task goroutine)
+			if cfg.OnErrorReenters && !s.race {
+				// an application that reports the failure through the very client
+				s.mu.Lock()
+				s.diagN++
+				n := s.diagN
+				s.mu.Unlock()
+				if n <= 20 {
+					q := mqtt.QoS0
+					if cfg.DirectQoS0 {
+						// a direct QoS 0 publish would sit on the connect lock of the next
+						// connection (engine S cannot schedule that): queue it instead
+						q = mqtt.QoS1
+					}
+					_ = s.retry.Publish(context.Background(), &mqtt.Message{Topic: "diag", QoS: q, Payload: []byte(fmt.Sprintf("diag%d", n))})
+				}
+			}
 		}
 	}
 	if cfg.Client == "reconnect" {
